@@ -9,7 +9,7 @@ def _errors():
 
     return (Exception, DirectException)
 
-from .. import coqrun, py2gallina as pg
+from .. import coqrun, py2gallina as pg, symex as X
 from ..core import Corr, Untranslatable, Violation
 
 ID = "C08"
@@ -246,38 +246,95 @@ def generate(ctx):
     zsrc = ast.unparse(zp)
     if "kspace = T.modulus(sample[self.kspace_key].clone()).sum(coil_dim)" not in zsrc:
         _fail("ComputeZeroPadding: the tested quantity is not the coil sum of the modulus", zp, path)
+    # The three module pins below are read off a symbolic execution (vlib/symex.py): helpers, local names and the form of
+    # the branches do not matter.
+    S = lambda n: ("sym", n)
+    me, sample = S("self"), S("sample")
     # ComputeImageModule: the SENSE-type reconstructions (and only they) read the sensitivity map
-    cif = pg.find_def(tree, "ComputeImageModule.forward", path)
-    chain = [n for n in pg.strip_doc(cif.body) if isinstance(n, ast.If)]
-    tests, node = [], chain[0] if chain else None
-    while node is not None:
-        tests.append(ast.unparse(node.test))
-        if len(node.orelse) == 1 and isinstance(node.orelse[0], ast.If):
-            node = node.orelse[0]
+    t, _n = X.run_function(tree, path, "ComputeImageModule.forward")
+    sens_read = ("sub", sample, X.const("sensitivity_map"))
+    rtype = ("attr", me, "type_reconstruction")
+    RT = lambda n: ("attr", S("ReconstructionType"), n)
+    saw_sense = False
+    for conds, lf in X.leaves(X.lift_ife(X.drop_do(t))):
+        # which reconstruction types can reach this leaf: those not excluded by the tests on the path
+        possible = {"IFFT", "COMPLEX", "COMPLEX_MOD", "RSS", "SENSE", "SENSE_MOD"}
+        for c, pol in conds:
+            named = None
+            if c[0] == "cmp" and c[2] == rtype and c[1] == "==" and c[3][0] == "attr" and c[3][1] == S("ReconstructionType"):
+                named = {c[3][2]}
+            elif c[0] == "cmp" and c[2] == rtype and c[1] == "in" and c[3][0] in ("list", "tuple"):
+                named = {x[2] for x in c[3][1] if x[0] == "attr"}
+            if named is not None:
+                possible = possible & named if pol else possible - named
+        reads = bool(X.find_nodes(lf, lambda v: v == sens_read)) if lf[0] == "ret" else False
+        sense_only = possible <= {"SENSE", "SENSE_MOD"}
+        if reads and not sense_only:
+            _fail("ComputeImageModule.forward: a reconstruction other than the SENSE types reads the sensitivity map (%s)" % sorted(possible), None, path)
+        if possible & {"SENSE", "SENSE_MOD"} and lf[0] == "ret":
+            if not reads or not sense_only:
+                _fail("ComputeImageModule.forward: which reconstructions read the sensitivity map is outside the subset", None, path)
+            if not any(c == ("cmp", "notin", X.const("sensitivity_map"), sample) and not pol for c, pol in conds) and not any(c == ("cmp", "in", X.const("sensitivity_map"), sample) and pol for c, pol in conds):
+                _fail("ComputeImageModule.forward: the sensitivity map is read without testing that it is in the sample", None, path)
+            saw_sense = True
+    if not saw_sense:
+        _fail("ComputeImageModule.forward: no SENSE-type branch found", None, path)
+    # NormalizeModule: every key to normalise is divided by the (per-sample) scaling factor, the others are left alone
+    hits, stopped = X.watch_calls(tree, path, "NormalizeModule.forward", ["safe_divide"])
+    loops = hits["$loops"]
+    if len(loops) != 1:
+        _fail("NormalizeModule.forward outside subset: not one loop over the sample (%s)" % stopped, None, path)
+    L = loops[0]
+    d = L["depth"]
+    key = ("bv", d)
+    if L["iter"] in (("call", ("attr", sample, "items"), (), ()),):
+        key = ("sub", ("bv", d), X.const(0))
+    elif L["iter"] not in (("call", ("attr", sample, "keys"), (), ()), sample):
+        _fail("NormalizeModule.forward outside subset: the loop is not over the keys of the sample", None, path)
+    sf = X.parse_expr("sample.get(self.scaling_factor_key, None)")
+    hs = ("havoc", "sample", d)
+    per_sample = lambda v: v[0] == "call" and v[1] == ("attr", sf, "reshape") and v[2][:1] == (X.const(-1),) and len(v[2]) == 2 and v[2][1][0] == "star"
+    ok_div = ok_skip = False
+    for kind, conds, env in L["paths"]:
+        listed = [pol for c, pol in conds if c in (("cmp", "notin", key, ("attr", me, "keys_to_normalize")), ("cmp", "in", key, ("attr", me, "keys_to_normalize")))]
+        neg = [c[1] == "notin" for c, pol in conds if c[0] == "cmp" and c[3] == ("attr", me, "keys_to_normalize")]
+        if len(listed) != 1:
+            _fail("NormalizeModule.forward outside subset: a path does not decide whether the key is to be normalised", None, path)
+        is_listed = (not listed[0]) if neg[0] else listed[0]
+        v = env.get("sample")
+        if is_listed:
+            good = v is not None and v[0] == "set" and v[1] == hs and v[2] == key and v[3][0] == "call" and v[3][1] == ("attr", S("T"), "safe_divide") and v[3][2][0] == ("sub", hs, key) and per_sample(v[3][2][1])
+            if not good:
+                _fail("NormalizeModule.forward outside subset: a key to normalise is not divided by the scaling factor of its sample: %s" % (X.show(v)[:120] if v else None), None, path)
+            ok_div = True
         else:
-            last = node.orelse
-            node = None
-    want = ["self.type_reconstruction == ReconstructionType.IFFT", "self.type_reconstruction in [ReconstructionType.COMPLEX, ReconstructionType.COMPLEX_MOD]", "self.type_reconstruction == ReconstructionType.RSS"]
-    if tests != want or "if 'sensitivity_map' not in sample:" not in ast.unparse(ast.Module(body=last, type_ignores=[])) or any("sensitivity_map" in ast.unparse(ast.Module(body=b.body, type_ignores=[])) for b in ast.walk(chain[0]) if isinstance(b, ast.If) and ast.unparse(b.test) in want):
-        _fail("ComputeImageModule.forward: which reconstructions read the sensitivity map is outside the subset", cif, path)
-    # NormalizeModule: every key is divided by the (per-sample) scaling factor
-    nm = ast.unparse(pg.find_def(tree, "NormalizeModule.forward", path))
-    if "sample[key] = T.safe_divide(sample[key], scaling_factor.reshape(-1, *[1 for _ in range(sample[key].ndim - 1)]))" not in nm or "if key not in self.keys_to_normalize:\n            continue" not in nm.replace("                ", "            "):
+            if v != hs:
+                _fail("NormalizeModule.forward outside subset: a key that is not to be normalised is changed", None, path)
+            ok_skip = True
+    if not (ok_div and ok_skip):
         _fail("NormalizeModule.forward outside subset", None, path)
-    # CreateSamplingMask: what is read from the sample
-    cm = pg.find_def(tree, "CreateSamplingMask.__call__", path)
+    # CreateSamplingMask: what is read from the sample; the seed is derived from the file name alone
+    t, _n = X.run_function(tree, path, "CreateSamplingMask.__call__")
+    hits, stopped = X.watch_calls(tree, path, "CreateSamplingMask.__call__", ["mask_func"])
     reads = set()
-    for n in ast.walk(cm):
-        if isinstance(n, ast.Subscript) and ast.unparse(n.value) == "sample" and isinstance(n.slice, ast.Constant) and isinstance(n.ctx, ast.Load):
-            reads.add(n.slice.value)
-        if isinstance(n, ast.Compare) and ast.unparse(n.comparators[0]) == "sample" and isinstance(n.left, ast.Constant):
-            reads.add(n.left.value)
-    csrc = ast.unparse(cm)
-    kreads = csrc.count("sample['kspace']")
-    if kreads != csrc.count("sample['kspace'].shape"):
-        _fail("CreateSamplingMask reads more than the shape of the k-space", cm, path)
-    if "seed = None if not self.use_seed else tuple(map(ord, str(sample['filename'])))" not in csrc:
-        _fail("CreateSamplingMask: the seed is not derived from the file name alone", cm, path)
+    for v in X.find_nodes(t, lambda v: (v[0] == "sub" and v[1] == sample and X.is_const(v[2])) or (v[0] == "cmp" and v[1] in ("in", "notin") and v[3] == sample and X.is_const(v[2]))):
+        reads.add(v[2][1])
+    reads.discard("sampling_mask")
+    reads.discard("acs_mask")
+    kshape = ("attr", ("sub", sample, X.const("kspace")), "shape")
+    uses = X.find_nodes(t, lambda v: v == ("sub", sample, X.const("kspace")))
+    shapes = X.find_nodes(t, lambda v: v == kshape)
+    if len(uses) != len(shapes):
+        _fail("CreateSamplingMask reads more than the shape of the k-space", None, path)
+    want_seed = X.parse_expr("tuple(map(ord, str(sample['filename']))) if self.use_seed else None")
+    if not hits["mask_func"]:
+        _fail("CreateSamplingMask: the mask function is never called (%s)" % stopped, None, path)
+    for conds, args, kw in hits["mask_func"]:
+        sd = dict(kw).get("seed")
+        use = [pol for c, pol in conds if c == ("attr", me, "use_seed")]
+        path_form = (use == [True] and sd == want_seed[2]) or (use == [False] and sd == X.NONE)
+        if sd != want_seed and not path_form:
+            _fail("CreateSamplingMask: the seed is not derived from the file name alone: %s" % (X.show(sd)[:100] if sd else None), None, path)
     out += "Open Scope string_scope.\nDefinition gen_mask_reads : list string := [%s].\n" % "; ".join('"%s"' % r for r in sorted(reads))
     return [pg.write_gen(ctx, "C08_gen", out)]
 
